@@ -2421,8 +2421,12 @@ func isIntType(t types.Type) bool {
 
 func returnsOf(fn *ssa.Function) []*ssa.Return {
 	var out []*ssa.Return
+	dead := DeadBlocks(fn)
 	for _, b := range fn.Blocks {
 		if fn.Recover != nil && b == fn.Recover {
+			continue
+		}
+		if dead[b] {
 			continue
 		}
 		if n := len(b.Instrs); n > 0 {
